@@ -34,7 +34,7 @@ def _npoly(item):
 
 STRUCTURE_KEYS = ("item", "window", "waters", "damage", "rename", "chains", "input_name",
                   "lig_het", "lig_resname", "lig_drop_h", "bad_records", "renumber",
-                  "water_name", "columns", "dimer_same_id")
+                  "water_name", "columns", "dimer_same_id", "sym_waters")
 
 
 TITRATABLE = ("LYS", "ASP", "GLU", "HIS", "TYR", "CYS", "ARG")
@@ -136,6 +136,9 @@ def gen_cfg(rng, structure=None):
             cfg["damage"] = (cfg.get("damage") or []) + [[nres - 1, "add_oxt"]]
         if rng.random() < 0.06 and not cfg.get("chains"):
             cfg["dimer_same_id"] = True
+        if rng.random() < 0.08:
+            # exact geometric ties (symmetric water groups)
+            cfg["sym_waters"] = rng.choice([2, 4, 8])
         if rng.random() < 0.12:
             cfg["renumber"] = rng.choice([-40, -300, 9000, 5000, 1])
         if cfg.get("waters") and rng.random() < 0.2:
@@ -382,6 +385,8 @@ def feature_families(seed, quick):
              {"item": "1AJJ.pdb", "window": [2, 12], "dimer_same_id": True},
              {"item": "1BX8.pdb", "window": [8, 10], "dimer_same_id": True},
              {"item": "1BX8.pdb"},
+             {"item": "cterm_hid.pdb", "sym_waters": 8},
+             {"item": "1AJJ.pdb", "window": [4, 8], "sym_waters": 5, "waters": 4},
              {"item": "1AJJ.pdb", "window": [0, 12], "waters": 8, "water_name": "WAT",
               "renumber": -40, "columns": "blank"},
              {"item": "1BX8.pdb", "window": [10, 12], "renumber": 9000, "columns": "segid",
